@@ -165,6 +165,9 @@ def run(case, ctx):
             dtype = [np.uint8, np.uint16][int(r.integers(0, 2))] if it != "SEMANTIC" else [np.uint8, np.uint16, np.int8, np.int16][int(r.integers(0, 4))]
         if len(set(pl) | set(rl)) >= np.iinfo(dtype).max:
             continue
+        if np.dtype(dtype).itemsize > 1 and r.random() < 0.15 and (it != "SEMANTIC" or cfg["backend"] == "scipy"):
+            dtype = np.dtype(dtype).newbyteorder(">")  # the same integer type in non-native byte order
+            ctx.count("f:C09.non_native_byte_order")
         if kind == "dtype_only":
             mp, mr = {l: l for l in pl}, {l: l for l in rl}
         elif it == "MATCHED_INSTANCE":
